@@ -123,7 +123,7 @@ def run_workers(prop, tier, seed, jobs, ncases):
 def aggregate(results):
     agg = {'counters': Counter(), 'events': [], 'nontrivial': set(), 'stats': {},
            'tallies': {}, 'samples': [], 'notes': Counter(), 'sets': {}, 'cases_run': 0,
-           'cases_total': 0, 'paths': set()}
+           'cases_total': 0, 'paths': set(), 'lines': {}}
     for r in results:
         agg['counters'].update(r['counters'])
         agg['events'].extend(r['events'])
@@ -140,6 +140,8 @@ def aggregate(results):
             if len(agg['samples']) < 8:
                 agg['samples'].append(s)
         agg['notes'].update(r['notes'])
+        for fn, ls in r.get('lines', {}).items():
+            agg['lines'].setdefault(fn, set()).update(ls)
         for k, v in r.get('sets', {}).items():
             agg['sets'].setdefault(k, set()).update(v)
         agg['cases_run'] += r['cases_run']
@@ -147,6 +149,41 @@ def aggregate(results):
         agg['paths'].add(r.get('copulas_path'))
     agg['events'].sort(key=lambda e: (e.get('case') if e.get('case') is not None else -1))
     return agg
+
+
+def line_report(lines, prop):
+    """Per anchor file of the property: executed statement lines / statement lines of the file."""
+    import ast
+    anchors = []
+    try:
+        with open(os.path.join(HERE, 'properties.jsonl')) as f:
+            for l in f:
+                p = json.loads(l)
+                if p['id'] == prop:
+                    anchors = [a.replace('copulas/', '', 1) for a in p['anchors'].get('files', [])]
+    except OSError:
+        pass
+    report = {}
+    repo_pkg = None
+    for fn in sorted(lines):
+        if anchors and fn not in anchors:
+            continue
+        total = None
+        try:
+            import copulas
+            repo_pkg = os.path.dirname(copulas.__file__)
+            tree = ast.parse(open(os.path.join(repo_pkg, fn)).read())
+            stmts = {n.lineno for n in ast.walk(tree) if isinstance(n, ast.stmt)
+                     and not (isinstance(n, ast.Expr) and isinstance(getattr(n, 'value', None), ast.Constant))}
+            total = len(stmts)
+            hit = len(stmts & set(lines[fn]))
+        except Exception:  # noqa: BLE001
+            hit = len(lines[fn])
+        report[fn] = {'statements_hit': hit, 'statements': total}
+    missing = [a for a in anchors if a not in lines]
+    if missing:
+        report['anchor files never executed'] = missing
+    return report
 
 
 def write_replay(prop, n, event):
@@ -292,6 +329,7 @@ def main(argv=None):
         'inconclusive_reasons': reasons,
         'copulas_imported_from': sorted(p for p in agg['paths'] if p),
     }
+    coverage['repository_lines_executed_under_monitoring'] = line_report(agg['lines'], getattr(mod, 'PROPERTY', prop))
     verdict = 'violated' if unclaimed else ('inconclusive' if reasons else 'held')
     coverage['verdict'] = verdict
     evidence = {
